@@ -3,15 +3,17 @@
 EXTENDS Logging
 Bool == {TRUE, FALSE}
 AllReq == [method : {"GET", "POST"}, framing : {"none", "cl0", "cl", "chunked"},
-           ct : {"none", "form", "multipart", "text", "json", "binary"}, enc : {"identity", "gzip"}, trailers : Bool]
+           ct : {"none", "form", "formbad", "multipart", "text", "json", "binary"}, enc : {"identity", "gzip"}, trailers : Bool]
+\* ("formbad": declared application/x-www-form-urlencoded, but the body is not a parseable form)
 \* attribute combinations that cannot be put on the wire are left out
 ReqOK(r) == /\ (r.trailers => r.framing = "chunked")
             /\ (r.framing \in {"none", "cl0"} => r.enc = "identity")
             /\ (r.method = "GET" => r.framing \in {"none", "cl0"})
-            /\ (r.ct \in {"form", "multipart"} => r.enc = "identity")
+            /\ (r.ct \in {"form", "formbad", "multipart"} => r.enc = "identity")
 FullReq == {r \in AllReq : ReqOK(r)}
 AllRes == [framing : {"cl0", "cl", "chunked", "close"}, ct : {"none", "text", "json", "binary"},
-           enc : {"identity", "gzip", "deflate", "unknown"}, trailers : Bool, redirect : Bool]
+           enc : {"identity", "gzip", "deflate", "zlib", "unknown"}, trailers : Bool, redirect : Bool]
+\* ("deflate": raw deflate data, "zlib": zlib-wrapped data as RFC 7230 defines the deflate coding; both are labelled deflate)
 ResOK(r) == /\ (r.trailers => r.framing = "chunked")
             /\ (r.framing = "cl0" => r.enc = "identity")
 FullRes == {r \in AllRes : ResOK(r)}
